@@ -2,6 +2,7 @@
 pub uninterp spec fn ls_spec<T, C>(items: Seq<T>, limit: usize, cmp: C) -> Seq<T>;
 #[verifier::external_body]
 pub fn limit_sort_all<T, C>(items: Vec<T>, limit: usize, cmp: C) -> (r: Vec<T>)
+    requires limit <= 0x7fff_ffff_ffff_ffff,   // `limit * 2` in the adapter (same precondition as the proved driver in unit limitsort)
     ensures r@ == ls_spec(items@, limit, cmp),
         r@.len() == (if items@.len() < limit { items@.len() } else { limit as nat }),
         forall|k: int| 0 <= k < r@.len() ==> items@.contains(#[trigger] r@[k]),
